@@ -110,6 +110,8 @@ def err_name(e):
         return "TypeError"
     if isinstance(e, OverflowError):
         return "OverflowError"
+    if isinstance(e, KeyError):
+        return "ValueError"            # the catalogue's `keyerr` validator: a rejection like any other (the model's error enum is small)
     return type(e).__name__
 
 
@@ -147,7 +149,11 @@ def _small(cfg, v):
     return v
 
 
-CATALOGUE = {"reject": _reject, "typeerr": _typeerr, "nonneg": _nonneg, "upper": _upper, "short": _short, "small": _small}
+def _keyerr(cfg, v):
+    return {"known": v}["unknown"]            # a validator that fails with something other than ValueError / TypeError
+
+
+CATALOGUE = {"reject": _reject, "typeerr": _typeerr, "nonneg": _nonneg, "upper": _upper, "short": _short, "small": _small, "keyerr": _keyerr}
 
 
 # ------------------------------------------------------------------------------------------------ declarations
@@ -190,7 +196,7 @@ def gen_field(rng, depth=2, scalar_only=False, hashable=False):
     k = rng.choice(kinds)
     f = {"k": k, "required": rng.random() < 0.25}
     if rng.random() < 0.12 and k in ("string", "int", "float", "list", "dict") and not hashable:
-        f["custom"] = rng.choice({"string": ["upper", "short", "reject"], "int": ["nonneg", "reject", "typeerr"], "float": ["nonneg"],
+        f["custom"] = rng.choice({"string": ["upper", "short", "reject", "keyerr"], "int": ["nonneg", "reject", "typeerr", "keyerr"], "float": ["nonneg"],
                                   "list": ["short", "small"], "dict": ["small", "small", "reject"]}[k])
     if k in ("string", "ipv4addr", "ipv4net", "hostname", "url", "filename"):
         f.update(str_opts(rng, light=k != "string"))
@@ -210,7 +216,7 @@ def gen_field(rng, depth=2, scalar_only=False, hashable=False):
         f["allow_ipv4"] = rng.random() < 0.6
     if k == "filename":
         f["exists"] = rng.choice([None, None, True, False, "dir", "file"])
-        f["startdir"] = rng.choice([None, None, "@TMP", "@TMP/sub", ""])
+        f["startdir"] = rng.choice([None, None, "@TMP", "@TMP/sub", "", "sub"])
     if k == "loglevel":
         if rng.random() < 0.3:
             f["levels"] = ["low", "high"]
@@ -412,7 +418,8 @@ WRONG = [None, True, False, 0, 1, -1, 7, 2 ** 70, 1.5, 0.0, -0.0, math.nan, math
 
 STR_POOL = ["", "a", "abc", "ABC", "Abc", "  abc  ", "xabcx", "Xabc", "xXabcXx", "x", "X", "xx", " ", "\t\n", "a b", "ab", "abcd", "abcde", "abcdefghi",
             "éa", "É", " abc ", "\x85abc", "12", "1234", "12345", "foo@bar.com", "-_a_-", "debug", " INFO ", "Warning", "low", "HIGH ",
-            "development", "Production ", "dev", "abab", "abcdab", "xyz", "yyzz", "z", "info\n", "a\nc", "a\n", "ß", "İ", "ǅ", "ﬁ"]
+            "development", "Production ", "dev", "abab", "abcdab", "xyz", "yyzz", "z", "info\n", "a\nc", "a\n", "ß", "İ", "ǅ", "ﬁ",
+            "xax", "XaX", "xAAx", "xXaXx", "abxab", "-a-", "_ab_", "straße", "ßß", "ßßß", "aßa", "ﬁﬁ", "groß"]
 INT_POOL = [0, 1, -1, 2, 3, 5, 10, 11, 99, 100, 101, 65535, 65536, 2 ** 40, 2 ** 53, -10, -11, "0", "5", " 7 ", "+3", "-4", "1_000", "1__0", "_1", "007",
             "0x10", "1e3", "1.0", "abc", "", " ", "٣", "1٣", "１２", 1.0, 1.5, -1.5, 2.999, -0.0, 1e10, 1e300, 2.0 ** 60, "10", "100", "65535", "65536"]
 FLOAT_POOL = [0, 1, -1, 10, 2 ** 53, 0.0, -0.0, 0.5, 1.5, -1.5, 2.5, 1e10, 1e300, 5e-324, math.inf, -math.inf, math.nan, "0.5", "1", " 2.5 ", "1e3", "inf",
@@ -430,10 +437,10 @@ HOST_POOL = ["localhost", "example.com", "a", "ab", "a-b.c", "-ab", "ab-", "a_b"
 URL_POOL = ["http://example.com", "https://a.b/c?d=e#f", "ftp://x", "mailto:a@b", "example.com", "//example.com/x", "http:", ":80", "1http://x", "a+b.c-d://x", "", "x",
             "HTTP://EXAMPLE.COM", " http://x", "http://x ", "\thttp://x", "ht tp://x", "http://[::1]/", "http://[::1/", "http://]x[/", "http://a]b/", "file:///etc/passwd",
             "a:b", "a1:b", "é://x", "http://é.com", "x:", "javascript:alert(1)", "ht\ntp://x", "http://exa\tmple.com"]
-FILE_POOL = ["", "f.txt", "sub", "sub/g.txt", "missing", "@TMP/f.txt", "@TMP/sub", "@TMP/missing", "./f.txt", "sub/../f.txt", "~", "~/x", "/", "/etc", "/etc/passwd", "f.txt ",
+FILE_POOL = ["", "f.txt", "g.txt", "sub", "sub/g.txt", "missing", "@TMP/f.txt", "@TMP/sub", "@TMP/missing", "./f.txt", "sub/../f.txt", "~", "~/x", "/", "/etc", "/etc/passwd", "f.txt ",
              " f.txt", "a//b", "..", "."]
 BYTES_POOL = ["", "abc", "é", "𝄞", b"", b"abc", b"\x00\xff\x10", b"0123456789abcdef0", "A" * 50]
-SECRET_POOL = ["", "s3cr3t", "pässwörd", " x ", "a" * 40]
+SECRET_POOL = ["", "s3cr3t", "pässwörd", " x ", "a" * 40, "user:pass", " padded ", "tab\tend\t"]
 
 
 def scalar_pool(f):
@@ -441,6 +448,41 @@ def scalar_pool(f):
     return {"string": STR_POOL, "loglevel": STR_POOL, "appmode": STR_POOL, "int": INT_POOL, "port": INT_POOL, "float": FLOAT_POOL, "bool": BOOL_POOL + [0, 1, 2, 0.0, 1.5, math.nan],
             "ipv4addr": ADDR_POOL, "ipv4net": NET_POOL, "hostname": HOST_POOL, "url": URL_POOL, "filename": FILE_POOL, "bytes": BYTES_POOL,
             "challenge": SECRET_POOL + [b"raw", b""], "secure": SECRET_POOL, "any": WRONG + STR_POOL[:5]}.get(k)
+
+
+def crafted_values(f):
+    """boundary values derived from the declaration itself: exactly at / just beyond each bound, and for strings values whose
+    length changes under the declared transformations (strip characters in the other case, letters whose case mapping is longer)"""
+    k = f.get("k")
+    out = []
+    if k in ("int", "port", "float"):
+        for b in (f.get("min"), f.get("max")):
+            if isinstance(b, (int, float)) and b == b and abs(b) != float("inf"):
+                out += [b, b - 1, b + 1, str(b)]
+                if k == "float":
+                    out += [b - 0.5, b + 0.5]
+        out += [0, -0.0] if (f.get("min") == 0 or f.get("max") == 0) else []
+    if k == "string":
+        strip = f.get("strip")
+        chars = strip if isinstance(strip, str) else (" " if strip else "")
+        for n in (f.get("min_len"), f.get("max_len")):
+            if isinstance(n, int):
+                for m in {max(n - 1, 0), n, n + 1}:
+                    out.append("a" * m)
+                    out.append("ß" * m)                       # upper() doubles the length
+                    if chars:
+                        c = chars[0]
+                        out.append(c + "a" * m + c)
+                        out.append(c.swapcase() + "a" * max(m - 2, 0) + c.swapcase())
+                        out.append(c.swapcase() + "A" * max(m - 2, 0) + c.swapcase())
+        for ch in f.get("choices") or []:
+            out += [ch, ch.upper(), " " + ch + " ", ch.swapcase()]
+    if k == "ipv4net":
+        for n in (f.get("min_prefix"), f.get("max_prefix")):
+            if isinstance(n, int):
+                for m in {max(n - 1, 0), n, min(n + 1, 32)}:
+                    out += ["0.0.0.0/%d" % m, "128.0.0.0/%d" % m if m >= 1 else "0.0.0.0/0", "255.255.255.255/%d" % m if m == 32 else "10.0.0.0/%d" % max(m, 8)]
+    return out
 
 
 def gen_value(rng, f, tmp="/nonexistent", p_wrong=0.15):
@@ -469,6 +511,9 @@ def gen_value(rng, f, tmp="/nonexistent", p_wrong=0.15):
                 continue                      # 1 / True / 1.0 are one key to Python; keep the model's key equality exact
             d[key] = gen_value(rng, vf, tmp, 0.08)
         return d
+    crafted = crafted_values(f)
+    if crafted and rng.random() < 0.25:
+        return rng.choice(crafted)
     v = rng.choice(scalar_pool(f))
     if isinstance(v, str) and not in_alphabet(v) and rng.random() < 0.85:
         v = rng.choice([x for x in scalar_pool(f) if not isinstance(x, str) or in_alphabet(x)])
@@ -656,6 +701,24 @@ def satisfies(f, v):
         return None if any(f.get(o) not in (None, [], "") for o in _STR_OPTS) else True
     if k == "bytes":
         return isinstance(v, bytes)
+    if k == "filename":
+        if not isinstance(v, str):
+            return False
+        if v == "" or any(f.get(o) not in (None, [], "") for o in _STR_OPTS):
+            return None
+        import os as _os
+        ex = f.get("exists")
+        if ex is True and not _os.path.exists(v):
+            return False
+        if ex is False and _os.path.exists(v):
+            return False
+        if ex == "dir" and not _os.path.isdir(v):
+            return False
+        if ex == "file" and not _os.path.isfile(v):
+            return False
+        if f.get("startdir") and not _os.path.isabs(v):
+            return False                   # with a start directory the stored name is the absolute path
+        return True
     if k == "list" and isinstance(f.get("item"), dict):
         if f["item"].get("k") == "any":
             return None                # handled like an untyped list: the value is kept as it is (a tuple stays a tuple)
